@@ -20,6 +20,11 @@ CHECKS = {
     technique="TLC invariant OnlyKnownStalls on RpycServe + TLC counterexample to NoStall replayed on the real code in virtual time; implementation schedule exploration with stall classification against known_findings.json",
     text="the model of the pinned serve() (notify before dispatch) violates NoStall; TLC's counterexample is followed step by step in the real code and the stall is measured in virtual time (known finding); TLC proves every reachable stall of the model has the known hand-off shape, and every explored implementation schedule is classified the same way, so a stall of any other shape is reported",
     note="bounded configurations; virtual time: timeouts only run out at quiescence; the known hand-off stall is listed in known_findings.json"),
+ "C10": dict(
+    spec="RpycLifetime", design="5/C10",
+    technique="TLA+ spec RpycLifetime (owner table counts, proxy counts, two FIFO streams) model-checked by TLC with the Accounting invariant; transition-cover and random histories executed on two real Connections with frame-by-frame manual delivery, compared state by state and trace-validated by TLC; reference-count and identity oracles",
+    text="TLC exhausts all interleavings of send / send-in-tuple / request / drop / pass-back / deliver-either-stream / close for 2 objects and proves Accounting, Safety, LeakFree; the same histories are executed on a real connection pair whose two directions are released frame by frame, with the owner's table, the holder's proxy counts and the decoded frames in flight compared with the TLC state after every step, and longer random histories are validated against the spec by TLC",
+    note="bounded model (2 objects, 3 boxings, streams of 3); lent objects are lists (built-in netref classes: no nested INSPECT during delivery); CPython refcounting with automatic GC disabled"),
 }
 NA = {}
 
